@@ -71,6 +71,13 @@ chk("C14", "E5", "exhaustive exploration of every answer the environment may giv
     "For every (expression, datum) of the bounded space (maps of 2..4 [thorough 5] entries with every {T,F,E} assignment x any/all x binding modes, nested map-in-map / list-of-maps, filters over maps) ALL iteration-order answer sequences are executed on the real code: one outcome class per case (filters: same kept keys or same error-ness). A free-repetition pass is run as a labelled sampling complement.",
     "Seam generated from /repo's working tree for reflect MapKeys/MapRange and range-over-map; constructs it cannot seam are listed and only covered by the complement; bounded map sizes.", "DESIGN.md 5 C14")
 
+chk("C12", "E3", "stateless exhaustive exploration of thread interleavings (depth-first, preemption-bounded, hot-set fixpoint) of the real code under a hand-written cooperative scheduler; state-based data-race oracle, sequential-result oracle, deadlock detection, schedule replay",
+    "For 17 (thorough 22) scenarios of k threads x m calls on one shared Evaluator/Filter (2x1, 2x2, 3x1 with unbounded preemptions; 3x2 with bound 2, thorough 3) every interleaving at the visible operations is executed on the real code: no state with two enabled conflicting plain accesses, every call returns its sequential result, no deadlock; violating schedules are replayed twice before being reported. The free-running -race build of the same bodies is a labelled sampling complement for accesses the overlay does not hook.",
+    "Visible operations = overlay-hooked accesses (own struct fields via pointer, package-level variables, map element writes) + shimmed sync/atomic; sequential consistency; dependencies' internals and goroutines spawned by the code under test are outside the model.", "DESIGN.md 5 C12")
+chk("C13", "E4", "explicit-state breadth-first search to closure over the reachable states of an Evaluator/Filter (canonical deep hash incl. unexported fields and package globals) under an operation alphabet, successor = fresh instance + shortest-path replay + one real call; oracle on every transition",
+    "For 32 (thorough 36) expression families x 8-12 operations the reachable state graph is searched until no new state appears (so the verdict covers histories of every length over the alphabet): each call's result equals a fresh evaluator's, the datum's deep hash is unchanged, Expression() is the creation string.",
+    "State = everything reachable from the instance + both packages' globals (accessor generated by the overlay); closure relative to the operation alphabet; depth cap 8 reported if hit.", "DESIGN.md 5 C13")
+
 REASON_NOT_BUILT = "check not built yet (in progress) - will be decided by bounded exhaustive exploration, see DESIGN.md"
 
 def main():
@@ -105,6 +112,8 @@ def main():
         },
         "engines": [
             {"name": "E6", "path": "/verif/mc/pegcmp/compare.go", "serves_properties": ["C20"], "kind_free_text": "E6 rule-graph product walker (grammar.peg vs grammar.go)"},
+            {"name": "E3", "path": "/verif/mc/vrt/sched.go", "serves_properties": ["C12"], "kind_free_text": "E3 schedule explorer: cooperative scheduler + preemption-bounded DFS over overlay-hooked accesses and shimmed sync operations"},
+            {"name": "E4", "path": "/verif/mc/checks/c13.go", "serves_properties": ["C13"], "kind_free_text": "E4 history explorer: BFS to closure over deep-hashed evaluator states"},
             {"name": "E5", "path": "/verif/mc/vrt/choose.go", "serves_properties": ["C14"], "kind_free_text": "E5 environment-choice explorer (map iteration order) over the overlay seam"},
             {"name": "E2", "path": "/verif/mc/checks/c15.go", "serves_properties": ["C10","C11","C15","C16","C19"], "kind_free_text": E2},
             {"name": "E1", "path": "/verif/mc/checks/e1.go", "serves_properties": ["C01","C02","C03","C04","C05","C06","C07","C08","C09","C17","C18"], "kind_free_text": E1},
